@@ -124,6 +124,10 @@ def _validate(ctx, vectors, tag):
         i, kind = int(m.group(1)), m.group(2)
         row = rows[i - 1]
         o = row["out"][1] if kind == "rule" else row["out"][0]
+        if kind == "panic":
+            fails.append({"kind": kind, "vector": vectors[i - 1], "out": o,
+                          "sig": "%s@%s" % ("hang" if o.get("hang") else "panic", row["in"]["method"])})
+            continue
         if kind == "bind":
             raise vlib.Infra("binding: vector %s did not parse to the intended block/method: %s" % (
                 json.dumps(row["in"]), json.dumps(o)[:300]))
@@ -179,7 +183,7 @@ def run(ctx):
                         "rule distances other than 127 obtained by patching the loaded Spec value before SetSpec",
                         "request carries no explicit extension choice (ExtensionOverride nil)"]
     fails = _validate(ctx, vectors, "grid")
-    if ctx.cov["real_archive_true"] == 0:
+    if ctx.cov["real_archive_true"] == 0 and not fails:
         raise vlib.Infra("dead binding: the real parser never attached the archive extension to any of %d requests" % len(vectors))
     seen = {}
     for f in fails:
@@ -194,6 +198,12 @@ def run(ctx):
         if not [a for a in again if a["sig"] == sig and a["vector"] == w["vector"]]:
             raise vlib.Infra("counter-example not reproduced: %s %s" % (sig, json.dumps(w["vector"])))
         v = w["vector"]
+        if w["kind"] == "panic":
+            ctx.violation(sig, "ParseMsg %s on %s requested=%s latest=%d rule=%d: %s (%d grid points in this class)" % (
+                "hung" if w["out"].get("hang") else "panicked", v["method"], TAGNAME.get(v["req"], v["req"]), v["latest"], v["rule"],
+                w["out"].get("panics"), len(fl)),
+                {"vectors": [w["vector"]], "request": render_cosmos(v)[:2] if v["method"] in COSMOS else render(v)})
+            continue
         ctx.violation(sig, "%s requested=%s latest=%d rule=%d: real archive marking=%s, statement says %s (%d grid points in this class)" % (
             v["method"] if w["kind"] == "conf" else "ExtensionParser(earliest)",
             TAGNAME.get(v["req"], v["req"]), v["latest"], v["rule"], w["out"]["arch"],
